@@ -130,8 +130,14 @@ Theorem C11_vfork_other_thread_untouched : forall pid thr t sv, thr <> s_thr sv 
 Proof. exact vfork_other_thread_untouched. Qed.
 Print Assumptions C11_vfork_other_thread_untouched.
 
+(* nor does a hook the calling thread itself runs in the parent before the child has run (a signal handler between the
+   entry hook of vfork and the system call): the saved state stays for the real return *)
+Theorem C11_vfork_before_child_untouched : forall pid thr t sv, s_ran sv = false -> vrestore pid thr t sv = (t, sv).
+Proof. exact vfork_before_child_untouched. Qed.
+Print Assumptions C11_vfork_before_child_untouched.
+
 Theorem C11_vfork_legacy_other_thread_refuted :
-  let sv := {| s_pid := 7; s_thr := 1; s_idx := 3; s_ridx := 3; s_ent := {| v_id := 9; v_norec := false |} |} in
+  let sv := {| s_pid := 7; s_thr := 1; s_idx := 3; s_ridx := 3; s_ent := {| v_id := 9; v_norec := false |}; s_ran := true |} in
   let t2 := vpush vth0 {| v_id := 5; v_norec := false |} in
   vshape (fst (vrestore_legacy 7 2 t2 sv)) = (3, 3, [false; false; false]) /\ vshape t2 = (1, 1, [false]) /\
   vshape (fst (vrestore 7 2 t2 sv)) = (1, 1, [false]).
